@@ -65,6 +65,13 @@ func (m *MDP) DecodeFromBytes(data []byte, df gopacket.DecodeFeedback) error {
 			break
 		}
 		t := data[offset]
+		if t != MdpTlvEnd {
+			// Every other TLV has a one byte length followed by that many bytes of value.
+			if offset+2 > len(data) || offset+2+int(data[offset+1]) > len(data) {
+				df.SetTruncated()
+				return fmt.Errorf("MDP TLV type %d at offset %d exceeds packet length %d", t, offset, len(data))
+			}
+		}
 		switch t {
 		case MdpTlvDeviceInfo:
 			offset += 2
